@@ -54,7 +54,8 @@ theorem hwc_echo (cfg : Server.Cfg) (tr : Server.Transport) (now bufLen : Nat) (
     EchoSt bufLen id opcode rd (specBody (catKind cfg) cfg.payload req).question w1 := by
   obtain ⟨hqd, han, hns, har, _, hop, _, _⟩ := reader_header req h12
   have hH := hdrSt_ok bufLen tr cfg.payload id opcode rd hbuf hpay
-  unfold Server.handleWithContext at h
+  rw [Server.handleWithContext_split] at h
+  unfold Server.handleWithContext' at h
   simp only [hqd, han, hns, har, hop] at h
   -- the state after the question and the frame of everything that follows
   have key : ∀ (q : Option Spec.DQuestion) (question : Option (WName × Nat × Nat)) (r1 : Reader)
